@@ -28,7 +28,9 @@ var _ Item = (*ListItem)(nil)
 
 // NewListItem creates a new ListItem containing the given child items.
 //
-// nil children are silently skipped. If the total
+// nil children are silently skipped, and so are EmptyItem children: an EmptyItem
+// encodes to zero bytes, so counting it in the list header would announce a child
+// that is never written and make the encoding undecodable. If the total
 // child count exceeds MaxByteSize, a deferred error is stored on the returned
 // item; call Error() to inspect it.
 //
@@ -52,6 +54,10 @@ func NewListItem(values ...Item) Item {
 
 	for _, v := range values {
 		if v == nil {
+			continue
+		}
+
+		if e, ok := v.(*EmptyItem); ok && e != nil {
 			continue
 		}
 
